@@ -91,6 +91,9 @@ type WalkScn struct {
 	HideSeed  uint64 `json:"hide_seed,omitempty"`
 	Tape      string `json:"tape"` // '1' = descend/continue, '0' = prune/abort; beyond the end: '1'
 	Reentrant bool   `json:"reentrant,omitempty"`
+	// SameOpts: the nested (re-entrant) walks are given the very same
+	// *WalkOptions value as the outer walk
+	SameOpts bool `json:"same_opts,omitempty"`
 }
 
 type TaskScn struct {
